@@ -53,14 +53,14 @@ def run(tier, seed):
         if len(ints) > 2:
             alphabet.append(f"s{ints[len(ints) // 2][2]}:{rng.below(1 << 32)}")
         seqs = []
-        depth = 3 if tier == "quick" else 4
+        depth = 3 if tier == "quick" else 5
         for dlen in range(1, depth + 1):
             for combo in itertools.product(alphabet, repeat=dlen):
                 seqs.append(list(combo))
         if tier == "quick":
             seqs = [s for i, s in enumerate(seqs) if len(s) < 3 or i % 3 == 0]
-        for _ in range(20 if tier == "quick" else 200):
-            k = 1 + rng.below(40)
+        for _ in range(20 if tier == "quick" else 2000):
+            k = 1 + rng.below(40 if tier == "quick" else 160)
             sq = []
             for _ in range(k):
                 c = rng.below(10)
